@@ -24,6 +24,11 @@ the same `E^(2^T) mod n`), `range_binding` (acceptance under two bound pairs / t
 `g^bb ≡ g'^bb'`, hence equal `bb` or an `OrderRelation`), `same_secret_binding` (same challenge,
 altered responses ⇒ `RepCollision ∨ ConcatAmbiguity ∨ ClHashCollision`), `prover_panics_iff`.
 
+Canonical representatives (Rust dca07f6): the verifier accepts only `0 ≤ E < n` and, in each proof of
+square, `0 ≤ F < n`: `rangeVerify_E_reduced`, `verifyOfSquare_F_reduced`, `rangeVerify_squares_F_reduced`,
+`rangeVerify_rejects_shifted_E`, `verifyOfSquare_rejects_shifted_F`; completeness therefore asks for a
+reduced commitment value (`range_complete`), which every honest commitment is (`commit_reduced`).
+
 "`E` represents `u`" (`Rep n E u`) means `E ≡ u` in `ℤ/n` for a unit `u`; exponents of units are
 integers of either sign (the blindings `r_2`, `r_3`, `ν` range over symmetric intervals).
 -/
@@ -111,34 +116,54 @@ theorem tolerance_complete (hA : ArithOK) {n : Int} (hn : 1 < n) {g h E x r a b 
 
 /-! ### 3. completeness of the whole proof -/
 
-/-- **Range-proof completeness.** Bases units mod `n > 1`, `c.value ≡ g^x·h^r`: every proof the
-prover returns — on any tape, for any bounds and suite — verifies against the same commitment,
-bases, modulus and bounds, and carries the commitment it was made for. (That the prover returns a
-proof at all forces `a < b` and `a ≤ x ≤ b`: `prover_in_range`.) -/
+/-- **Range-proof completeness.** Bases units mod `n > 1`, `c.value ≡ g^x·h^r` and `c.value` the
+reduced representative `0 ≤ c.value < n` (the verifier accepts no other since dca07f6; every commitment
+made by `commit_with_pk` / `commit_with_commitment_pk` / `commit_v` is reduced: `commit_reduced` below):
+every proof the prover returns — on any tape, for any bounds and suite — verifies against the same
+commitment, bases, modulus and bounds, and carries the commitment it was made for. (That the prover
+returns a proof at all forces `a < b` and `a ≤ x ≤ b`: `prover_in_range`.) -/
 theorem range_complete (hA : ArithOK) (cs : Suite) {n : Int} (hn : 1 < n) {g h x a b : Int}
     {c : Commitment} {u v : (ZMod n.toNat)ˣ} (hg : Rep n g u) (hh : Rep n h v)
-    (hc : Rep n c.value (u ^ x * v ^ c.randomness)) {tp tp' : List Draw} {π : RangeProof}
+    (hc : Rep n c.value (u ^ x * v ^ c.randomness)) (hcr : 0 ≤ c.value ∧ c.value < n)
+    {tp tp' : List Draw} {π : RangeProof}
     (hp : rangeProve cs x c g h n a b tp = .ok (π, tp')) (tq : List Draw) :
     rangeVerify cs π g h n a b tq = .ok (true, tq) ∧ π.E = c.value :=
-  ClRange.range_complete hA cs hn hg hh hc hp tq
+  ClRange.range_complete hA cs hn hg hh hc hcr hp tq
+
+/-- **Honest commitments are reduced**: the hypothesis `0 ≤ c.value < n` of `range_complete` holds for
+every commitment returned by `commit_with_commitment_pk`, `commit_with_pk` (any attributes, any index
+list) and by `commit_v` on a non-negative `v` (accepted signatures have `0 < v`). -/
+theorem commit_reduced (hA : ArithOK) {cs : Suite} :
+    (∀ {msgs : List Int} {cpk : CommitmentPK} {uo : Option (List Nat)} {c : Commitment}
+      {t t' : List Draw}, 0 < cpk.N → commitWithCpk cs msgs cpk uo t = .ok (c, t') →
+        0 ≤ c.value ∧ c.value < cpk.N) ∧
+    (∀ {msgs bases : List Int} {pk : PublicKey} {uo : Option (List Nat)} {c : Commitment}
+      {t t' : List Draw}, 0 < pk.N → commitWithPk cs msgs pk bases uo t = .ok (c, t') →
+        0 ≤ c.value ∧ c.value < pk.N) ∧
+    (∀ {v : Int} {cpk : CommitmentPK} {c : Commitment} {t t' : List Draw}, 0 < cpk.N → 0 ≤ v →
+      commitV cs v cpk t = .ok (c, t') → 0 ≤ c.value ∧ c.value < cpk.N) :=
+  ⟨fun hN h => commitWithCpk_reduced hA hN h, fun hN h => commitWithPk_reduced hA hN h,
+    fun hN hv h => commitV_reduced hA hN hv h⟩
 
 /-- The same with plain hypotheses, for non-negative value and opening (all the library's uses:
 attributes, `e`, and `random_bits` openings are non-negative). -/
 theorem range_complete_nonneg (hA : ArithOK) (cs : Suite) {n : Int} (hn : 1 < n) {g h x a b : Int}
     {c : Commitment} (hg : Int.gcd g n = 1) (hh : Int.gcd h n = 1) (hx : 0 ≤ x)
     (hr : 0 ≤ c.randomness)
-    (hc : c.value % n = g ^ x.toNat * h ^ c.randomness.toNat % n) {tp tp' : List Draw}
+    (hc : c.value % n = g ^ x.toNat * h ^ c.randomness.toNat % n)
+    (hcr : 0 ≤ c.value ∧ c.value < n) {tp tp' : List Draw}
     {π : RangeProof} (hp : rangeProve cs x c g h n a b tp = .ok (π, tp')) :
     rangeVerify cs π g h n a b [] = .ok (true, []) ∧ π.E = c.value := by
   obtain ⟨u, hu⟩ := rep_of_gcd hn hg
   obtain ⟨v, hv⟩ := rep_of_gcd hn hh
-  refine ClRange.range_complete hA cs hn hu hv ?_ hp []
+  refine ClRange.range_complete hA cs hn hu hv ?_ hcr hp []
   rw [zpow_toNat u hx, zpow_toNat v hr]
   exact Rep.of_emod_eq hn ((hu.pow _).mul (hv.pow _)) hc
 
 /-- the hypotheses of `range_complete_nonneg` are satisfiable -/
 example : (1 : Int) < 35 ∧ Int.gcd 2 35 = 1 ∧ Int.gcd 3 35 = 1 ∧
-    (24 : Int) % 35 = 2 ^ (3 : Int).toNat * 3 ^ (1 : Int).toNat % 35 := by decide
+    (24 : Int) % 35 = 2 ^ (3 : Int).toNat * 3 ^ (1 : Int).toNat % 35 ∧ (0 : Int) ≤ 24 ∧ (24 : Int) < 35 := by
+  decide
 
 /-! ### 4. the honest prover outside the interval -/
 
@@ -192,8 +217,8 @@ theorem range_complete_commit (hA : ArithOK) (cs : Suite) {cpk : CommitmentPK} (
     rangeVerify cs π gi cpk.h cpk.N a b [] = .ok (true, []) ∧ π.E = cmi.value := by
   obtain ⟨u, hu⟩ := rep_of_gcd hn hg
   obtain ⟨v, hv⟩ := rep_of_gcd hn hh
-  obtain ⟨hc, -, -⟩ := commitWithCpk_single hA hn rfl hgi hm hu hv hcm
-  exact ClRange.range_complete hA cs hn hu hv hc hp []
+  obtain ⟨hc, -, -, hc0, hcn⟩ := commitWithCpk_single hA hn rfl hgi hm hu hv hcm
+  exact ClRange.range_complete hA cs hn hu hv hc ⟨hc0, hcn⟩ hp []
 
 /-- … and in `ZKPoK::generate_proof` (`commit_with_pk` on one attribute, bases `a_i`, `b`). -/
 theorem range_complete_commit_pk (hA : ArithOK) (cs : Suite) {pk : PublicKey} (hn : 1 < pk.N)
@@ -205,8 +230,8 @@ theorem range_complete_commit_pk (hA : ArithOK) (cs : Suite) {pk : PublicKey} (h
     rangeVerify cs π ai pk.b pk.N a b [] = .ok (true, []) ∧ π.E = cmi.value := by
   obtain ⟨u, hu⟩ := rep_of_gcd hn hg
   obtain ⟨v, hv⟩ := rep_of_gcd hn hh
-  obtain ⟨hc, -, -⟩ := commitWithPk_single hA hn rfl hai hm hu hv hcm
-  exact ClRange.range_complete hA cs hn hu hv hc hp []
+  obtain ⟨hc, -, -, hc0, hcn⟩ := commitWithPk_single hA hn rfl hai hm hu hv hcm
+  exact ClRange.range_complete hA cs hn hu hv hc ⟨hc0, hcn⟩ hp []
 
 /-! ### 5. what an accepted proof is bound to -/
 
@@ -232,7 +257,7 @@ theorem square_bound (hA : ArithOK) {cs : Suite} {π : RangeProof} {g h n a b : 
       gaa * π.tol.Ea1 * π.tol.Ea2 ≡ π.Eprime [ZMOD n] ∧
       π.Eprime * π.tol.Eb1 * π.tol.Eb2 ≡ gbb [ZMOD n] := by
   intro T
-  obtain ⟨hab, rfl, hE', htol⟩ := range_accept_inv hA (by omega) hv
+  obtain ⟨hab, rfl, -, hE', htol⟩ := range_accept_inv hA (by omega) hv
   obtain ⟨-, -, gaa, Ea, gbb, Eb, h1, h2, h3, h4, h5, h6, c3, c4, v1, v2, v3, v4⟩ :=
     tolerance_accept_inv htol
   refine ⟨hab, hE', c3, c4, v1, v2, v3, v4, gaa, gbb, (pw_ok_iff.mp h1).1, (pw_ok_iff.mp h3).1, ?_, ?_⟩
@@ -247,6 +272,57 @@ theorem square_bound (hA : ArithOK) {cs : Suite} {π : RangeProof} {g h n a b : 
       _ ≡ π.Eprime * Eb [ZMOD n] := e2.mul_left _
       _ ≡ gbb [ZMOD n] := e1
 
+/-! ### 5a. canonical representatives: `E` and `F` are reduced -/
+
+/-- **An accepted range proof carries the reduced representative of its commitment**: `0 ≤ E < n`.
+No hypotheses. -/
+theorem rangeVerify_E_reduced {cs : Suite} {π : RangeProof} {g h n a b : Int} {tq tq' : List Draw}
+    (hv : rangeVerify cs π g h n a b tq = .ok (true, tq')) : 0 ≤ π.E ∧ π.E < n := by
+  unfold rangeVerify at hv
+  split at hv
+  · cases hv
+  split at hv
+  · cases (pure_ok_iff.mp hv).1
+  · omega
+
+/-- **An accepted proof of square carries the reduced representative of `F`**: `0 ≤ F < n`. -/
+theorem verifyOfSquare_F_reduced {π : ProofOfS} {g h n : Int} {tq tq' : List Draw}
+    (hv : verifyOfSquare π g h n tq = .ok (true, tq')) : 0 ≤ π.F ∧ π.F < n :=
+  (verifyOfSquare_accept_inv hv).1
+
+/-- … hence both proofs of square inside an accepted range proof do. -/
+theorem rangeVerify_squares_F_reduced (hA : ArithOK) {cs : Suite} {π : RangeProof} {g h n a b : Int}
+    (hn : 1 < n) {tq tq' : List Draw} (hv : rangeVerify cs π g h n a b tq = .ok (true, tq')) :
+    (0 ≤ π.tol.squareA.F ∧ π.tol.squareA.F < n) ∧ (0 ≤ π.tol.squareB.F ∧ π.tol.squareB.F < n) := by
+  obtain ⟨-, rfl, -, -, htol⟩ := range_accept_inv hA (by omega) hv
+  obtain ⟨-, -, gaa, Ea, gbb, Eb, -, -, -, -, -, -, -, -, v1, v2, -⟩ := tolerance_accept_inv htol
+  exact ⟨verifyOfSquare_F_reduced v1, verifyOfSquare_F_reduced v2⟩
+
+/-- **At most one representative of `E` is accepted.** A proof accepted with `E` is not accepted with
+`E + k·n`, `k ≠ 0` — under any bases and bounds with the same modulus, on any tape (before the check
+`0 ≤ E < n` the proof with `E ± n` verified as well). `0 < n` follows from the acceptance. -/
+theorem rangeVerify_rejects_shifted_E {cs : Suite} {π : RangeProof} {g h g' h' n a b a' b' : Int}
+    {k : Int} (hk : k ≠ 0) {tq tq' : List Draw}
+    (hv : rangeVerify cs π g h n a b tq = .ok (true, tq')) (tw tw' : List Draw) :
+    rangeVerify cs { π with E := π.E + k * n } g' h' n a' b' tw ≠ .ok (true, tw') := by
+  intro hv'
+  have h1 := rangeVerify_E_reduced hv
+  have h2 := rangeVerify_E_reduced hv'
+  have := shift_not_reduced (N := n) hk h1.1 h1.2
+  simp only at h2
+  omega
+
+/-- **At most one representative of `F` is accepted** by `verify_of_square`. -/
+theorem verifyOfSquare_rejects_shifted_F {π : ProofOfS} {g h g' h' n : Int} {k : Int} (hk : k ≠ 0)
+    {tq tq' : List Draw} (hv : verifyOfSquare π g h n tq = .ok (true, tq')) (tw tw' : List Draw) :
+    verifyOfSquare { π with F := π.F + k * n } g' h' n tw ≠ .ok (true, tw') := by
+  intro hv'
+  have h1 := verifyOfSquare_F_reduced hv
+  have h2 := verifyOfSquare_F_reduced hv'
+  have := shift_not_reduced (N := n) hk h1.1 h1.2
+  simp only at h2
+  omega
+
 /-- **Altered fields.** Two accepted proofs (same bases, modulus, bounds) that agree on `E`, `Ea1`
 and `Eb1` agree on `Eprime`, `Ea2`, `Eb2`, `squareA.E`, `squareB.E`: each of these five fields is a
 function of the others, so a proof in which one of them alone was altered is rejected. -/
@@ -257,8 +333,8 @@ theorem determined_fields (hA : ArithOK) {cs : Suite} {π π' : RangeProof} {g h
     (hE : π.E = π'.E) (h1 : π.tol.Ea1 = π'.tol.Ea1) (h2 : π.tol.Eb1 = π'.tol.Eb1) :
     π.Eprime = π'.Eprime ∧ π.tol.Ea2 = π'.tol.Ea2 ∧ π.tol.Eb2 = π'.tol.Eb2 ∧
     π.tol.squareA.E = π'.tol.squareA.E ∧ π.tol.squareB.E = π'.tol.squareB.E := by
-  obtain ⟨-, rfl, hE1, htol⟩ := range_accept_inv hA hn hv
-  obtain ⟨-, rfl, hE2, htol'⟩ := range_accept_inv hA hn hv'
+  obtain ⟨-, rfl, -, hE1, htol⟩ := range_accept_inv hA hn hv
+  obtain ⟨-, rfl, -, hE2, htol'⟩ := range_accept_inv hA hn hv'
   have hEp : π.Eprime = π'.Eprime := by rw [hE1, hE2, hE]
   obtain ⟨-, -, gaa, Ea, gbb, Eb, p1, p2, p3, p4, p5, p6, c3, c4, -⟩ := tolerance_accept_inv htol
   obtain ⟨-, -, gaa', Ea', gbb', Eb', q1, q2, q3, q4, q5, q6, d3, d4, -⟩ :=
